@@ -38,11 +38,18 @@ def pySlice {α} (xs : List α) (a : Nat) (b : Int) : List α :=
 def whereTrue (flags : List Bool) : List Nat :=
   (List.range flags.length).filter fun i => flags.getD i false
 
+def strictlyIncreasing : List Int → Bool
+  | a :: b :: rest => decide (a < b) && strictlyIncreasing (b :: rest)
+  | _ => true
+
 /-- `_validate_exit_planes(exit_planes, num_slices)`; `spec` is `none`, an `int` or a tuple. -/
 def validateExitPlanes (spec : Option (Int ⊕ List Int)) (n : Nat) : Except String (List Int) :=
   match spec with
   | none => .ok [(n : Int) - 1]
-  | some (.inr t) => .ok t
+  | some (.inr t) =>
+    -- explicit tuples must be strictly increasing and start at -1 (entrance plane) or later; indices beyond the last slice are
+    -- accepted (a slice window carries the exit planes of the full stack)
+    if !(strictlyIncreasing t) || (match t with | [] => false | a :: _ => decide (a < -1)) then .error "value_error" else .ok t
   | some (.inl e) =>
     if e ≥ (n : Int) then .ok [(n : Int) - 1]
     else if e = 0 then .error "value_error"            -- range() arg 3 must not be zero
